@@ -1,8 +1,78 @@
-(* C01 -- placeholder until the conservation lemmas land *)
-From Tola Require Import Py.Base Model.Fragment Model.Scaffold Model.Namer Model.Remap.
+(* C01 -- Remapping conserves sequence: outputs exactly partition the input
+   contigs.  Only statements, each closed by [exact] of a lemma from Proofs/. *)
+From Tola Require Import Py.Base Model.Fragment Model.Scaffold Model.Lookup Model.OverlapResult
+  Model.Namer Model.Remap Model.RemapSpec Proofs.RemapFinal.
+From Tola Require Proofs.RemapTail Proofs.RemapHead.
 
-Lemma C01_qc_rejects_gap :
-  qc_sub_fragments (mkFrag 0 (s "c") 1 10 1 [])
-                   [mkFrag (-1) (s "c") 1 4 1 []; mkFrag (-2) (s "c") 6 10 1 []] = Err ValueError.
-Proof. vm_compute. reflexivity. Qed.
-Print Assumptions C01_qc_rejects_gap.
+(* For EVERY input assembly whose contigs are well-formed intervals with
+   pairwise distinct (name, start, end), EVERY Pretext assembly (edit scripts
+   PretextView can produce, the same with perturbed / dropped / duplicated /
+   overlapping / out-of-range pieces, arbitrary bait lists), every texel size,
+   autosome prefix, join gap and tag combination: if the whole pipeline
+   (lookups, overhang trimming and resolution, cuts with their QC, re-adding
+   what was never found, fusing, naming, sorting, statistics) returns without
+   an error, then for every contig name n and base x the number of output
+   fragments (over all output assemblies) covering (n, x) equals the number of
+   input contigs covering it, and every output fragment is a sub-interval of
+   an input contig of that name.  No size bound; no hypothesis on the Pretext
+   file: a file that cannot be honoured consistently ends in [Err]. *)
+Theorem C01_conservation : forall c g prefix bpt input pretext o,
+  input_ok input ->
+  remap c g prefix bpt input pretext = Ok o ->
+  conserved input o.
+Proof. exact remap_conserves. Qed.
+Print Assumptions C01_conservation.
+
+(* with disjoint input contigs: every base in exactly one output fragment *)
+Theorem C01_exactly_once : forall c g prefix bpt input pretext o n x,
+  input_ok input ->
+  remap c g prefix bpt input pretext = Ok o ->
+  coverage (in_frags input) n x = 1%nat ->
+  coverage (out_frags o) n x = 1%nat.
+Proof. exact remap_exactly_once. Qed.
+Print Assumptions C01_exactly_once.
+
+(* the mechanisms named in the property *)
+(* -- the QC after a cut: pieces that are sub-intervals of the contig and pass
+      the QC partition it *)
+Theorem C01_qc_partition : forall orig subs,
+  f_start orig <= f_end orig ->
+  Forall (fun f => f_name f = f_name orig /\ f_start orig <= f_start f /\ f_start f <= f_end f
+                   /\ f_end f <= f_end orig) subs ->
+  qc_sub_fragments orig subs = Ok tt ->
+  forall n x, coverage subs n x = coverage [orig] n x.
+Proof. exact Proofs.RemapTail.qc_partition. Qed.
+Print Assumptions C01_qc_partition.
+
+(* -- the first half: lookups + overhang resolution + cuts leave the overlap
+      results covering exactly the found contigs, and the left-over scaffolds
+      hold exactly the contigs never found *)
+Theorem C01_first_half : forall c g prefix bpt input pretext rs,
+  input_ok input ->
+  remap_to_input c g prefix bpt input pretext = Ok rs ->
+  let inp := number_input input 0 in
+  Post inp (rs_b rs)
+  /\ map key_of (flat_map (fun sc => frags_of (sc_rows sc)) (rs_left rs))
+     = map key_of (filter (fun f => negb (is_found (rs_b rs) f)) (in_frags inp)).
+Proof. exact (Proofs.RemapHead.remap_head qc_ok). Qed.
+Print Assumptions C01_first_half.
+
+(* -- the second half: fusing, naming and sorting only permute fragments *)
+Theorem C01_second_half_keys : forall c g prefix input rs o,
+  assemblies_with_scaffolds_fused c g prefix input rs = Ok o ->
+  Permutation.Permutation
+    (map key_of (out_frags o))
+    (map key_of (result_frags (rs_b rs) ++ flat_map (fun sc => frags_of (sc_rows sc)) (rs_left rs))).
+Proof. exact Proofs.RemapTail.assemblies_keys. Qed.
+Print Assumptions C01_second_half_keys.
+
+(* non-vacuity: a contig painted by two baits is cut in two and conserved *)
+Example C01_example :
+  let input := [(s "S1", [RF (mkFrag 0 (s "c1") 1 1000 1 [])])] in
+  let pretext := [(s "Scaffold_1", [RF (mkFrag 0 (s "S1") 1 600 1 [])]);
+                  (s "Scaffold_2", [RF (mkFrag 0 (s "S1") 601 1000 1 [])])] in
+  match remap repaired (mkGap 200 (s "scaffold")) (s "SUPER_") (10, 1) input pretext with
+  | Ok o => map key_of (out_frags o) = [(s "c1", 1, 600); (s "c1", 601, 1000)] /\ out_cuts o = 1
+  | Err _ => False
+  end.
+Proof. vm_compute. split; reflexivity. Qed.
